@@ -1,5 +1,6 @@
 import RLV.Model.Bind
 import RLV.Model.Comp
+import RLV.Model.Cpr
 import RLV.Model.Core
 import RLV.Model.Disp
 import RLV.Model.Esc
@@ -243,6 +244,11 @@ def step (line : String) : String :=
     let n := match lastNon.getLast? with | some i => i + 1 | none => 0
     let scr := "/".intercalate ((trimmed.take n).map showNats)
     " ".intercalate (toksB.map Disp.showTk ++ [s!"XY:{t.nx},{t.ny}", s!"SCR:{scr}"])
+  | ["cpr", bytes] =>
+    -- what is read from the terminal: the cursor report handed over (the last one), and the keys left
+    let l := parseNats bytes
+    let r := Cpr.extract (l.length + 1) l
+    s!"{match r.1 with | some c => showNats c | none => "-"} {showNats r.2}"
   | ["comp", l, cp, v] =>
     let line := parseNats l
     let cpos : Int := cp.toInt?.getD 0
